@@ -72,6 +72,20 @@ fn judge<'a, T: DiffableStr + ?Sized + 'a>(d: &'a TextDiff<'a, 'a, 'a, T>, old: 
                 return Err(format!("iter_all_changes consumed by {} next() calls and then for_each yields {} changes that differ from plain iteration ({} changes)", k, got.len(), plain.len()));
             }
         }
+        for k in [1usize, 2, 3, 7] {
+            let skipped: Vec<Row> = d.iter_all_changes().skip(k).map(row).collect();
+            if skipped[..] != plain[k.min(plain.len())..] {
+                return Err(format!("iter_all_changes().skip({}) yields {} changes, plain iteration has {} after the first {}", k, skipped.len(), plain.len().saturating_sub(k), k));
+            }
+            let nth = d.iter_all_changes().nth(k).map(row);
+            if nth.as_ref() != plain.get(k) {
+                return Err(format!("iter_all_changes().nth({}) = {:?}, plain iteration has {:?} there", k, nth, plain.get(k)));
+            }
+        }
+        let stepped: Vec<Row> = d.iter_all_changes().step_by(2).map(row).collect();
+        if stepped != plain.iter().step_by(2).cloned().collect::<Vec<_>>() {
+            return Err("iter_all_changes().step_by(2) differs from every second change of plain iteration".into());
+        }
         let mut pk = d.iter_all_changes().peekable();
         let _ = pk.peek();
         let got: Vec<Row> = pk.map(row).collect();
